@@ -2,12 +2,15 @@
 from impl import engine
 
 ASSUMPTIONS = [
-    "fault kinds injected: exception before / after writing products, omitted product, deleted input (missing dependency); "
+    "fault kinds injected: exception before / after writing products, sys.exit() / sys.exit('msg') / sys.exit(n) before or after writing, "
+    "omitted product, deleted input (missing dependency); "
     "failing load/save of custom nodes is exercised by the C08 campaign",
     "after-targets always have products in this campaign (finding F1 is scoped to C01)",
     "tasks carry skipif(False), try_first / try_last and user markers at random: marks that must be irrelevant to containment "
     "(skipif(False) is no flag in the model, try_first / try_last are the model's priorities)",
     "observed schedule replayed in the Lean engine; theorems hold for every legal schedule",
+    "stream 'latelink' (a DirectoryNode dependency whose pattern matches the ordinary product file of another, failing task: the edge "
+    "appears only when the DAG is re-created): implementation-only oracle without model replay",
     "stream 'dirlink' (a DirectoryNode product next to file products, consumers of the DirectoryNode, the producer failing in its body or "
     "in teardown): no provisional nodes in M6 (they are M7's, property C18), implementation-only oracle without model replay",
     "stream 'memlink' (product -> dependency links through an in-memory PythonNode whose producer fails): no in-memory nodes in M6, "
@@ -15,6 +18,14 @@ ASSUMPTIONS = [
     "stream 'generator' (task generators with products / dependants / after-links, failing, under failure limits): the static engine "
     "model M6 has no generators, so this stream is checked by the implementation-only oracle (contain, limit, exit) without model replay",
 ]
+
+
+# failure kinds: an exception before / after the products are written, an omitted product, and script-style bodies that call
+# sys.exit() / sys.exit("msg") / sys.exit(n) before or after writing (SystemExit is a failure of that task like any other)
+SYS = ("sysexit", "sysexit_none", "sysexit_msg", "sysexit_late")
+BEHS = ("ok",) * 7 + ("early", "late", "omit") + SYS
+BEHS_NO_OMIT = ("ok",) * 6 + ("early", "late") + SYS
+FAILING = ("early", "late", "late") + SYS
 
 
 def lim(rng, n):
@@ -58,6 +69,19 @@ def oracle(hist, records):
         ex = engine.executed(obs)
         order = [engine.name_to_id(r[0]) for r in obs["reports"]]
         failed = [t for t in order if out[t] == "FAIL"]
+        # `late_deps`: a DirectoryNode dependency whose pattern matches the ordinary product file n of another task u. The link only
+        # appears when the consumer's setup resolves the pattern: if the file existed then (before the build, or written by u's body
+        # in this build) and u was processed before the consumer, the consumer depends on u
+        if any(t.get("late_deps") for t in spec["tasks"]):
+            prod_of = {p: u["id"] for u in spec["tasks"] for p in u["prods"]}
+            edges = set(edges)
+            for t in spec["tasks"]:
+                for n in t.get("late_deps", []):
+                    u = prod_of.get(n)
+                    if u is None or u == t["id"] or u not in order or t["id"] not in order or order.index(u) > order.index(t["id"]):
+                        continue
+                    if rec["pre"].get(n) is not None or (u in ex and rec["post"].get(n) is not None):
+                        edges.add((u, t["id"]))
         for f in failed:
             for d in engine.closure(edges, f, forward=True):
                 if d in ex:
@@ -98,9 +122,9 @@ def oracle(hist, records):
 def histories(ctx):
     rng = ctx.rng
     hs = []
-    for i in range(ctx.scale(100, 1200)):
+    for i in range(ctx.scale(90, 1200)):
         # markers that must be irrelevant to containment: skipif(False), try_first / try_last, user markers
-        spec = engine.gen_spec(rng, nt=(2, 7), after_p=0.25, after_needs_prods=True, behs=("ok", "ok", "ok", "early", "late", "omit"),
+        spec = engine.gen_spec(rng, nt=(2, 7), after_p=0.25, after_needs_prods=True, behs=BEHS,
                                marks=(("skipif_false", 0.3), ("try_first", 0.12), ("try_last", 0.12)), user_markers=True)
         cfg = lim(rng, rng.choice([None, None, 1, 2, 3]))
         if rng.random() < 0.25:
@@ -136,7 +160,7 @@ def histories(ctx):
                 byid[d]["marks"] = sorted(set(byid[d]["marks"]) | {"persist"})
         ups = engine.closure(edges, f["id"], forward=False) | {f["id"]}
         ins = sorted({d for u in ups for d in byid[u]["deps"]} & {int(k) for k in spec["inputs"]}) or [int(k) for k in spec["inputs"]]
-        beh = rng.choice(["late", "late", "late", "early", "omit:0"])
+        beh = rng.choice(["late", "late", "sysexit_late", "early", "sysexit_msg", "omit:0"])
         steps = [["build", {}], ["write", rng.choice(ins), rng.randint(100, 999)], ["setbeh", f["id"], beh],
                  ["build", lim(rng, rng.choice([None, None, 2]))], ["build", {}]]
         hs.append({"tag": "persist-dependant", "spec": spec, "steps": steps})
@@ -151,7 +175,7 @@ def memlink_histories(ctx):
     hs = []
     for i in range(ctx.scale(20, 300)):
         spec = engine.gen_spec(rng, nt=(3, 7), after_p=0.15, after_needs_prods=True, prodless_p=0.05, dens=0.9,
-                               behs=("ok", "ok", "ok", "early", "late"), styles=("default", "annotated", "kwargs"),
+                               behs=BEHS_NO_OMIT, styles=("default", "annotated", "kwargs"),
                                marks=(("skipif_false", 0.15),), user_markers=True)
         prod_of = {p: t["id"] for t in spec["tasks"] for p in t["prods"]}
         byid = {x["id"]: x for x in spec["tasks"]}
@@ -171,7 +195,7 @@ def memlink_histories(ctx):
         if rng.random() < 0.8:                      # the producer of a link fails
             u = byid[rng.choice(linked)]
             if u["beh"] == "ok":
-                u["beh"] = rng.choice(["early", "late"])
+                u["beh"] = rng.choice(FAILING)
         steps = [["build", lim(rng, rng.choice([None, None, 1, 2]))], ["build", {}]]
         hs.append({"tag": "memlink", "spec": spec, "steps": steps})
     return hs
@@ -194,7 +218,7 @@ def dirlink_histories(ctx):
     hs.append({"tag": "dirlink", "spec": f32, "steps": [["build", {}], ["build", {}]]})
     for i in range(ctx.scale(16, 300)):
         spec = engine.gen_spec(rng, nt=(3, 7), after_p=0.1, after_needs_prods=True, prodless_p=0.05, dens=0.8,
-                               behs=("ok", "ok", "ok", "ok", "late"), styles=("default", "annotated", "kwargs"),
+                               behs=("ok",) * 8 + ("late", "sysexit_late"), styles=("default", "annotated", "kwargs"),
                                marks=(("skipif_false", 0.1),), user_markers=True)
         tasks = spec["tasks"]
         aftered = {a for t in tasks for a in t["after"]}
@@ -214,9 +238,56 @@ def dirlink_histories(ctx):
             if r < 0.5:
                 u["beh"] = f"omit:{rng.randrange(len(u['prods']))}"              # fails in teardown: a file product is never created
             elif r < 0.8:
-                u["beh"] = rng.choice(["late", "early"])
+                u["beh"] = rng.choice(["late", "early", "sysexit_late", "sysexit"])
         steps = [["build", lim(rng, rng.choice([None, None, 1, 2]))], ["build", {}]]
         hs.append({"tag": "dirlink", "spec": spec, "steps": steps})
+    return hs
+
+
+def latelink_histories(ctx):
+    """Labelled stream "latelink": a consumer depends on `DirectoryNode(pattern matching the ORDINARY product file of another task)`
+    (`late_deps`): both tasks exist from the start, the edge between them only appears when the consumer's setup resolves the pattern
+    and the DAG is re-created. The producer fails after writing the file, or fails with the file left over from an earlier build;
+    priorities and hash seeds vary who is handed out first. Implementation-only oracle (contain / limit / exit)."""
+    rng = ctx.rng
+    hs = []
+
+    def t(i, mod, deps, prods, **kw):
+        return dict({"id": i, "module": mod, "deps": deps, "prods": prods, "after": [], "marks": [], "beh": "ok", "style": "default"}, **kw)
+    for beh in ("late", "sysexit_late"):
+        for pmarks, cmarks in (([], []), (["try_first"], []), ([], ["try_last"])):
+            spec = {"tasks": [t(0, 0, [100], [110], beh=beh, marks=list(pmarks)),
+                              t(1, 1, [], [111], late_deps=[110], style="annotated", marks=list(cmarks)), t(2, 2, [111], [112])],
+                    "versions": {"0": 0, "1": 0, "2": 0}, "inputs": {"100": 5}}
+            hs.append({"tag": "latelink", "spec": spec, "steps": [["build", {}], ["build", {}]]})
+    # left-over file: a good build, then the producer starts to fail before writing anything
+    for beh in ("early", "sysexit_none"):
+        spec = {"tasks": [t(0, 0, [100], [110], marks=["try_first"]), t(1, 1, [], [111], late_deps=[110], style="annotated"), t(2, 2, [111], [112])],
+                "versions": {"0": 0, "1": 0, "2": 0}, "inputs": {"100": 5}}
+        hs.append({"tag": "latelink", "spec": spec, "steps": [["build", {}], ["setbeh", 0, beh], ["bump", 1], ["build", {}]]})
+    for i in range(ctx.scale(8, 200)):
+        spec = engine.gen_spec(rng, nt=(3, 6), after_p=0.1, after_needs_prods=True, dens=0.8, prodless_p=0.05, nomods=(2, 3),
+                               styles=("default", "annotated"), behs=("ok",),
+                               marks=(("try_first", 0.15), ("try_last", 0.15), ("skipif_false", 0.1)))
+        prod_of = {p: u for u in spec["tasks"] for p in u["prods"]}
+        prods = []
+        for c in spec["tasks"]:
+            for d in list(c["deps"]):
+                if d in prod_of and prod_of[d]["id"] != c["id"] and rng.random() < 0.6:
+                    c["deps"].remove(d)
+                    c.setdefault("late_deps", []).append(d)
+                    prods.append(prod_of[d])
+        if not prods:
+            continue
+        u = rng.choice(prods)
+        cfg = lim(rng, rng.choice([None, None, 1, 2]))
+        if rng.random() < 0.5:
+            u["beh"] = rng.choice(["late", "late", "sysexit_late"])
+            steps = [["build", cfg], ["build", {}]]
+        else:
+            beh = rng.choice(["early", "late", "sysexit_none", "sysexit_late"])
+            steps = [["build", {}], ["setbeh", u["id"], beh]] + [["bump", m] for m in sorted({x["module"] for x in spec["tasks"]})] + [["build", cfg]]
+        hs.append({"tag": "latelink", "spec": spec, "steps": steps})
     return hs
 
 
@@ -235,7 +306,7 @@ def generator_histories(ctx):
     hs.append({"tag": "generator", "spec": f37, "steps": [["build", {}], ["build", {}]]})
     for i in range(ctx.scale(24, 400)):
         spec = engine.gen_spec(rng, nt=(3, 7), after_p=0.3, after_needs_prods=True, prodless_p=0.05, dens=0.8,
-                               behs=("ok", "ok", "ok", "early", "late"), styles=("default", "annotated", "kwargs"),
+                               behs=BEHS_NO_OMIT, styles=("default", "annotated", "kwargs"),
                                marks=(("skipif_false", 0.25), ("try_first", 0.1), ("try_last", 0.1)), user_markers=True)
         consumed = {d for t in spec["tasks"] for d in t["deps"]} | {p for t in spec["tasks"] for a in t.get("after", [])
                                                                     for u in spec["tasks"] if u["id"] == a for p in u["prods"]}
@@ -244,7 +315,7 @@ def generator_histories(ctx):
         for t in rng.sample(pool, min(len(pool), rng.randint(1, 2))):
             t["gen"] = True
             if rng.random() < 0.6:
-                t["beh"] = rng.choice(["early", "late", "late"])
+                t["beh"] = rng.choice(FAILING)
         # the task a generator creates may consume products of other tasks (which may fail before or after the generator runs,
         # having written the product or not, or with the product left over from an earlier build)
         for t in spec["tasks"]:
@@ -258,7 +329,7 @@ def generator_histories(ctx):
                         prod_of = {p: u for u in spec["tasks"] for p in u["prods"]}
                         u = prod_of[rng.choice(t["gen_child_deps"])]
                         if u["beh"] == "ok" and not u.get("gen"):
-                            u["beh"] = rng.choice(["late", "late", "early"])
+                            u["beh"] = rng.choice(["late", "late", "sysexit_late", "early", "sysexit_none"])
         cfg = lim(rng, rng.choice([None, 1, 1, 2]))
         steps = [["build", cfg]]
         gens = [t for t in spec["tasks"] if t.get("gen")]
@@ -270,7 +341,7 @@ def generator_histories(ctx):
             steps = [["build", {}], ["setbeh", g["id"], beh], ["build", cfg]]
         elif rng.random() < 0.4:
             # left-over product: the producer of a child's dependency fails (before writing) only after a good build
-            fl = [u for u in spec["tasks"] if u["beh"] in ("early", "late") and not u.get("gen")
+            fl = [u for u in spec["tasks"] if u["beh"] in FAILING and not u.get("gen")
                   and any(set(u["prods"]) & set(g_.get("gen_child_deps", [])) for g_ in gens)]
             if fl:
                 u = rng.choice(fl)
@@ -314,11 +385,15 @@ def run(ctx):
     engine.run_campaign(ctx, dirlink_histories(ctx), oracle, kinds={"contain", "limit", "exit"}, nontrivial=nontrivial,
                         sel_eval=engine.sel_eval, compare_model=False)
     ctx.extra["dirlink_stream_nontrivial"] = len(ctx.nontrivial) - before
+    before = len(ctx.nontrivial)
+    engine.run_campaign(ctx, latelink_histories(ctx), oracle, kinds={"contain", "limit", "exit"}, nontrivial=nontrivial,
+                        sel_eval=engine.sel_eval, compare_model=False)
+    ctx.extra["latelink_stream_nontrivial"] = len(ctx.nontrivial) - before
 
 
 def replay(ctx, obj):
     h = obj["input"]["history"]
-    if h.get("tag") in ("generator", "memlink", "dirlink"):
+    if h.get("tag") in ("generator", "memlink", "dirlink", "latelink"):
         engine.run_campaign(ctx, [h] * 4, oracle, kinds={"contain", "limit", "exit"}, sel_eval=engine.sel_eval, compare_model=False)
     else:
         engine.run_campaign(ctx, [h] * 4, oracle, sel_eval=engine.sel_eval)
